@@ -133,3 +133,11 @@ Theorem c19_stop_leaves_no_joined_task_running : forall env stp t,
   forallb (fun s => ended (task_after (s_routine (nth t CloseShapes.slots default_slot)) stp s)) (nth t env []) = true.
 Proof. exact stop_leaves_no_joined_task_running. Qed.
 Print Assumptions c19_stop_leaves_no_joined_task_running.
+
+(* which rewrites of a join are harmless: a more absorbing await style (bare -> try/except CancelledError or suppress ->
+   gather(return_exceptions=True)) or an added done() guard keeps a safe join safe *)
+Theorem c19_safe_join_monotone : forall slots t g g' st st',
+  style_le st st' = true -> (g = true -> g' = true) ->
+  step_safe slots (CancelAwait t g st) = true -> step_safe slots (CancelAwait t g' st') = true.
+Proof. exact safe_join_monotone. Qed.
+Print Assumptions c19_safe_join_monotone.
